@@ -14,3 +14,5 @@ Lemma near : all_range 1972 47%N chk_dt_near = true.
 Proof. vm_cast_no_check (@eq_refl bool true). Qed.
 Lemma joints : forallb chk_joint joints_nolibm = true.
 Proof. vm_cast_no_check (@eq_refl bool true). Qed.
+Lemma joints_month : forallb chk_month_jump joints_monthly = true.
+Proof. vm_cast_no_check (@eq_refl bool true). Qed.
